@@ -11,7 +11,9 @@ CLI_NETS = [dict(start=([1, 16, 16, 16], "int8"), steps=["conv3x3", "cpu_neg", "
             # third-party custom operators (kept for the CPU) before, between and without accelerated operators
             dict(start=([1, 8, 8, 8], "int8"), steps=["maxpool2x2", "cpu_custom"]),
             dict(start=([1, 8, 8, 8], "int8"), steps=["maxpool2x2", "cpu_custom", "maxpool2x2"]),
-            dict(start=([1, 8, 8, 8], "int8"), steps=["cpu_custom"])]
+            dict(start=([1, 8, 8, 8], "int8"), steps=["cpu_custom"]),
+            # a CPU operator with an omitted optional operand
+            dict(start=([1, 8, 8, 8], "int8"), steps=["maxpool2x2", "cpu_custom_opt"])]
 
 
 def cli_cases(tier):
